@@ -58,6 +58,17 @@ def trimBoth (p : Char → Bool) (s : Str) : Str :=
 /-- textproto.TrimString -/
 def trimString (s : Str) : Str := trimBoth isTextprotoSpace s
 
+/-- strings.Split(s, ",") -/
+def splitOnComma : Str → Str → List Str
+  | [], cur => [cur.reverse]
+  | ',' :: r, cur => cur.reverse :: splitOnComma r []
+  | c :: r, cur => splitOnComma r (c :: cur)
+
+/-- the first member of a list-based field value given as its field lines: the lines are one comma-separated
+    list (RFC 9110 §5.3), white space around members and empty members do not count (§5.6.1) -/
+def firstListMember (lines : List Str) : Str :=
+  (((lines.flatMap fun v => splitOnComma v []).map trimString).filter (!·.isEmpty)).headD []
+
 /-- strings.TrimSpace restricted to ASCII white space -/
 def isGoSpace (c : Char) : Bool :=
   c = ' ' || c = '\t' || c = '\n' || c = '\r' || c.toNat = 11 || c.toNat = 12
